@@ -104,6 +104,8 @@ package boltz
 //@   modifies *, ocCnt, ocFn, ocRecv, cxN, cxWho, cxPhase, cxCtx, cxPersist, edDone
 //@   callpre[persists-a-new-entity-into-the-bucket-just-created] PersistEntity@1: arg0 == entity && arg1 != nil && arg1.Bucket == local(bucket) && arg1.IsCreate && arg1.Id == entId(ref(entity)) && arg1.MutateContext == ctx && arg1.Store == store.impl && arg1.FieldChecker == nil
 //@   callpre[the-entity's-bucket-is-made-for-its-id] getOrCreateEntityBucket@1: recv == store && str(arg1) == entId(ref(entity))
+//@   callpre[persist-then-after-update-before-the-change-is-announced] loadFinalState@1: !holderFailed[ret(getOrCreateEntityBucket, 1)] ==> cxPersist >= old(cxN) && cxN >= cxPersist + len(store.Indexer.constraints) && cxSegment(cxN, store.Indexer.constraints, len(store.Indexer.constraints), 2, sel(cxCtx, cxN - 1))
+//@   callpre[after-update-with-a-create-context-for-this-row] ProcessAfterUpdate@1: recv.IsCreate && str(recv.RowId) == entId(ref(entity)) && recv.Ctx == ctx && recv.Indexer == store.Indexer && ref(recv.ErrHolder) == ref(ret(getOrCreateEntityBucket, 1))
 //@   lensures[persist-then-after-update] indexingContext != nil && !holderFailed[indexingContext.ErrHolder] ==> cxPersist >= old(cxN) && cxN >= cxPersist + len(store.Indexer.constraints) && cxSegment(cxN, store.Indexer.constraints, len(store.Indexer.constraints), 2, ref(indexingContext))
 //@   lensures[the-row's-context] indexingContext != nil ==> indexingContext.IsCreate && str(indexingContext.RowId) == entId(ref(entity)) && indexingContext.Ctx == ctx && indexingContext.Indexer == store.Indexer
 //@   lensures[holder] bucket != nil && bucket.Err != nil ==> result != nil
@@ -125,6 +127,9 @@ package boltz
 //@   modifies *, ocCnt, ocFn, ocRecv, cxN, cxWho, cxPhase, cxCtx, cxPersist, edDone
 //@   callpre[a-child-store-strategy-sees-the-same-update] HandleUpdate@1: arg0 == ctx && arg1 == entity && arg2 == checker
 //@   callpre[persists-into-the-entity's-existing-bucket-with-the-caller's-field-checker] PersistEntity@1: arg0 == entity && arg1 != nil && arg1.Bucket == local(bucket) && !arg1.IsCreate && arg1.Id == entId(ref(entity)) && arg1.MutateContext == ctx && arg1.Store == store.impl && arg1.FieldChecker == checker
+//@   callpre[the-whole-protocol-ran-before-the-change-is-announced] loadFinalState@1: !holderFailed[ret(GetEntityBucket, 1)] ==> cxPersist >= old(cxN) + len(store.Indexer.constraints) && cxSegment(cxPersist, store.Indexer.constraints, len(store.Indexer.constraints), 1, sel(cxCtx, cxN - 1)) && cxN >= cxPersist + len(store.Indexer.constraints) && cxSegment(cxN, store.Indexer.constraints, len(store.Indexer.constraints), 2, sel(cxCtx, cxN - 1))
+//@   callpre[before-update-with-a-context-for-this-row] ProcessBeforeUpdate@1: !recv.IsCreate && str(recv.RowId) == entId(ref(entity)) && recv.Ctx == ctx && recv.Indexer == store.Indexer && ref(recv.ErrHolder) == ref(ret(GetEntityBucket, 1))
+//@   callpre[after-update-with-a-context-for-this-row] ProcessAfterUpdate@1: !recv.IsCreate && str(recv.RowId) == entId(ref(entity)) && recv.Ctx == ctx && recv.Indexer == store.Indexer && ref(recv.ErrHolder) == ref(ret(GetEntityBucket, 1))
 //@   lensures[before-update-precedes-the-persist] indexingContext != nil && !holderFailed[indexingContext.ErrHolder] ==> cxPersist >= old(cxN) + len(store.Indexer.constraints) && cxSegment(cxPersist, store.Indexer.constraints, len(store.Indexer.constraints), 1, ref(indexingContext))
 //@   lensures[after-update-follows-the-persist] indexingContext != nil && !holderFailed[indexingContext.ErrHolder] ==> cxN >= cxPersist + len(store.Indexer.constraints) && cxSegment(cxN, store.Indexer.constraints, len(store.Indexer.constraints), 2, ref(indexingContext))
 //@   lensures[the-row's-context] indexingContext != nil ==> !indexingContext.IsCreate && str(indexingContext.RowId) == entId(ref(entity)) && indexingContext.Ctx == ctx && indexingContext.Indexer == store.Indexer
@@ -151,6 +156,8 @@ package boltz
 //@   errflow
 //@   nosafety
 //@   modifies *, ocCnt, ocFn, ocRecv, cxN, cxWho, cxPhase, cxCtx, cxPersist, edDone
+//@   callpre[every-constraint-is-told-before-the-links-are-cleaned] cleanupLinks@1: arg1 == id && (!holderFailed[arg2] ==> cxN >= old(cxN) + len(store.Indexer.constraints) && cxSegment(cxN, store.Indexer.constraints, len(store.Indexer.constraints), 3, sel(cxCtx, cxN - 1)))
+//@   callpre[before-delete-with-a-context-for-this-row] ProcessBeforeDelete@1: str(recv.RowId) == id && recv.Ctx == ctx && recv.Indexer == store.Indexer
 //@   lensures[then-every-link-collection-is-told] errHolder != nil && !holderFailed[errHolder] ==> forallStr(k, has(store.links, k) ==> edDone[store.links[k]]) && forallStr(k, has(store.refCountedLinks, k) ==> edDone[store.refCountedLinks[k]])
 //@   lensures[before-delete-for-every-constraint] indexingContext != nil && !holderFailed[indexingContext.ErrHolder] ==> cxN >= old(cxN) + len(store.Indexer.constraints) && cxSegment(cxN, store.Indexer.constraints, len(store.Indexer.constraints), 3, ref(indexingContext)) && str(indexingContext.RowId) == id && indexingContext.Ctx == ctx
 //@   lensures[holder] errHolder.Err != nil ==> result1 != nil
